@@ -2,7 +2,7 @@
 from . import helpers_rules as H
 
 META = {
-    'claim_added': 'Also decided: writes are dominated by the kind test of the attribute; every item/entry yields exactly one entry of the result; wrap and short-form conditions compared as canonical guard sets; built nodes carry plain tags.',
+    'claim_added': 'Also decided: writes are dominated by the kind test of the attribute; every item/entry yields exactly one entry of the result; wrap and short-form conditions compared as canonical guard sets; built nodes carry plain tags. Round 3: attribute lookup is by the exact key text (R15.9).',
     'level': 'other',
     'technique': 'static: typestate mined from the docstrings ("Use only if is_mapping() returns True") checked by dominance of '
                  'kind tests on the same receiver; reachability from node writes to do-nothing exits; decision atoms of the '
